@@ -251,6 +251,17 @@ macro_rules! x64_variant {
         }
     };
 }
+#[allow(dead_code, unused_imports, unused_variables, unused_unsafe, unreachable_code, clippy::all)]
+pub mod plat_linux_arm {
+    pub mod common { include!(concat!(env!("OUT_DIR"), "/plat_linux_arm/common.rs")); }
+    pub mod patch_trait { include!(concat!(env!("OUT_DIR"), "/plat_linux_arm/patch_trait.rs")); }
+    pub mod patch_arm { include!(concat!(env!("OUT_DIR"), "/plat_linux_arm/patch_arm.rs")); }
+    pub unsafe fn install(src: u64, fake: u64, kind: &str, v: bool) -> common::PatchGuard {
+        use patch_trait::PatchTrait;
+        let f = |a: u64| common::FuncPtrInternal::new(std::ptr::NonNull::new(a as usize as *mut ()).unwrap());
+        if kind == "bool" { patch_arm::PatchArm::replace_function_return_boolean(f(src), v) } else { patch_arm::PatchArm::replace_function_with_other_function(f(src), f(fake)) }
+    }
+}
 arm64_variant!(plat_macos_a64, "plat_macos_a64");
 arm64_variant!(plat_windows_a64, "plat_windows_a64");
 arm64_variant!(plat_linux_a64, "plat_linux_a64");
@@ -301,6 +312,7 @@ fn run_case(c: &Value) {
             "macos-x64" => life!(plat_macos_x64),
             "windows-x64" => life!(plat_windows_x64),
             "linux-x64" => life!(plat_linux_x64),
+            "linux-arm" => life!(plat_linux_arm),
             x => panic!("harness: unknown variant {x}"),
         }
     });
